@@ -235,7 +235,7 @@ RULE_ADDENDA = {
     "C16": "every message type 0..14 x presence of client id / server id / IA_NA / rapid commit for the three builders; special address forms; edit of the innermost message after an earlier encoding",
     "C17": "for every accessor and every length: a right-aligned form (zeros, ff ff, four octets: the IPv4-mapped shape at 16 octets) and a left-aligned form (four octets then zeros); set/get through every typed constructor with full equality and after a wire trip; read-edit-set of parsed search domains; one caller-owned value shared by two packets then updated in one",
     "C18": "total lengths around the multiples of 256 (low octet of the length field between 253 and 24); two deviations per frame; IP options with total lengths around the header length; bound addresses 0.0.0.0 / 255.255.255.255 / 127.0.0.1; destinations 0.0.0.0 and broadcast",
-    "C19": "sequences of three edits on parsed and on constructed values with an encoding after each (a second in-place edit, an edit back to the received names); pointers into the middle of a label (dual readings); in-place edits (element, swap, sort, case only, reslice, append) after ToBytes/Length; names through the DHCPv6 options 24/39/56-3 and DHCPv4 119 must re-encode verbatim",
+    "C19": "names completed through a pointer whose prefix (1..253 octets) and target (1..253 octets) are each within the limit while the whole may not be; the boundary family of C05; sequences of three edits on parsed and on constructed values with an encoding after each (a second in-place edit, an edit back to the received names); pointers into the middle of a label (dual readings); in-place edits (element, swap, sort, case only, reslice, append) after ToBytes/Length; names through the DHCPv6 options 24/39/56-3 and DHCPv4 119 must re-encode verbatim",
     "C20": "parameter request lists in shapes a helper may special-case (sorted, sorted with a repeated code followed by others, descending, all equal, ascending except the last); every subject generated twice and observed in both orders (encoding first / methods first); label sets with empty and repeated names; messages repeating singleton options; random routes; hardware addresses and names longer than their fields; End/Pad codes as map keys",
 }
 for _k, _v in RULE_ADDENDA.items():
